@@ -44,8 +44,13 @@ def run(ctx):
         st = rows.get("StreamTerminated", [])
         ok = len(st) == 1 and st[0].ret_shape() == "StreamError::RemoteTerminate" and not fatal_in(prog, st[0])
         code = st[0].ret[3][0] if ok and st[0].ret[0] == "agg" and st[0].ret[3] else None
-        ok = ok and code is not None and code[0] == "call" and "From<u64>>::from" in code[1] and \
-            code[2][0][0] == "param" and "error_code" in "".join(code[2][0][2])
+        # Code::from(error_code): as a call, or (the conversion being a plain newtype wrapper) as the wrapped value itself
+        if code is not None and code[0] == "agg" and code[1].endswith("codes::Code") and code[3]:
+            inner_ = code[3][0]
+            ok = ok and inner_[0] == "param" and "error_code" in "".join(inner_[2])
+        else:
+            ok = ok and code is not None and code[0] == "call" and "From<u64>>::from" in code[1] and \
+                code[2][0][0] == "param" and "error_code" in "".join(code[2][0][2])
         ctx.check(ok, "C07-a", h.key, "peer reset/stop -> RemoteTerminate{peer's code}, connection untouched",
                   "StreamTerminated leads to %s (code %s, fatal=%s); a peer resetting one request must surface as a stream-level error "
                   "carrying the peer's code" % ([p.ret_shape() for p in st], pa.vfmt(code) if code else None, [fatal_in(prog, p) for p in st]), "")
@@ -148,6 +153,13 @@ def run(ctx):
                 rows[lab] = p
         ok = "Ready:Err" in rows and rows["Ready:Err"].ret_shape() == "Ready(Err(FrameStreamError::Quic))" and \
             "Ready:Ok" in rows and rows["Ready:Ok"].ret_shape().startswith("Ready(Ok(") and rows.get("Pending") is not None and rows["Pending"].ret_shape() == "Pending"
+        comb = [p for p in ps if p.has_call("BufRecvStream::poll_read")]
+        if not ok and len(comb) == 1 and not rows:
+            ps = comb
+            # combinator form: `self.stream.poll_read(cx).map_err(FrameStreamError::Quic)` - Pending and Ready(Ok) pass through by construction
+            r_ = ps[0].ret
+            ok = r_ is not None and r_[0] == "call" and pa.short(r_[1]) == "map_err" and "Poll" in r_[1] and len(r_[2]) == 2 and \
+                r_[2][0][0] == "call" and r_[2][0][1].endswith("BufRecvStream::poll_read") and r_[2][1][0] == "fn" and r_[2][1][1].endswith("FrameStreamError::Quic")
         ctx.check(ok, "C07-b", fs.key, "stream error -> FrameStreamError::Quic(e), never `end`",
                   "try_recv rows: %s" % {k: v.ret_shape() for k, v in rows.items()}, "")
 
